@@ -110,7 +110,8 @@ func bindYAMLT(b *strings.Builder, ind string, list *sx.Node) error {
 	}
 	fmt.Fprintf(b, "%sbind:\n", ind)
 	for _, c := range list.List {
-		fmt.Fprintf(b, "%s  - name: %s\n%s    type: push\n", ind, q(c.At(0).Str()), ind)
+		fmt.Fprintf(b, "%s  - name: %s\n", ind, q(c.At(0).Str()))
+		miscYAML(b, ind, c.At(5), "push")
 		if v := c.At(1).Str(); v != "" {
 			fmt.Fprintf(b, "%s    transport: %s\n", ind, q(v))
 		}
@@ -137,7 +138,8 @@ func connectYAMLT(b *strings.Builder, ind string, list *sx.Node) error {
 	}
 	fmt.Fprintf(b, "%sconnect:\n", ind)
 	for _, c := range list.List {
-		fmt.Fprintf(b, "%s  - name: %s\n%s    type: pull\n", ind, q(c.At(0).Str()), ind)
+		fmt.Fprintf(b, "%s  - name: %s\n", ind, q(c.At(0).Str()))
+		miscYAML(b, ind, c.At(3), "pull")
 		if v := c.At(1).Str(); v != "" {
 			fmt.Fprintf(b, "%s    transport: %s\n", ind, q(v))
 		}
@@ -267,7 +269,7 @@ func seenIn(cs []channel.Inbound) *sx.Node {
 	n := sx.L()
 	for _, c := range cs {
 		n.Add(sx.L(sx.A(c.Name), sx.A(orDefault(c.Transport.String(), "default")), sx.A(orDefault(c.Addressing.String(), "tcp")),
-			sx.A(c.Target), sx.A(c.Global)))
+			sx.A(c.Target), sx.A(c.Global), seenMisc(c.Channel)))
 	}
 	return n
 }
@@ -275,7 +277,7 @@ func seenIn(cs []channel.Inbound) *sx.Node {
 func seenOut(cs []channel.Outbound) *sx.Node {
 	n := sx.L()
 	for _, c := range cs {
-		n.Add(sx.L(sx.A(c.Name), sx.A(orDefault(c.Transport.String(), "default")), sx.A(c.Target)))
+		n.Add(sx.L(sx.A(c.Name), sx.A(orDefault(c.Transport.String(), "default")), sx.A(c.Target), seenMisc(c.Channel)))
 	}
 	return n
 }
@@ -810,12 +812,14 @@ func genTemplateCase(r *rng.R, maxTasks int) fw.Case {
 		}
 	}
 
+	sw := r.N(8)
+	ptags := decorate(r.Fork(), classes, nil)
 	cl := sx.L()
 	for _, c := range classes {
-		cl.Add(sx.L(sx.A(c.name), sx.A(c.mode), insSx(c.bind), outsSx(c.conn)))
+		cl.Add(c.sx())
 	}
-	sw := r.N(8)
 	tags := []string{"tmpl", fmt.Sprintf("tmpl:sw=%d", sw), fmt.Sprintf("tmpl:max-instances=%d", st.maxInst)}
+	tags = append(tags, ptags...)
 	for k, v := range map[string]bool{"tmpl:parent-path": st.parentPath, "tmpl:alias": st.alias, "tmpl:fixed-instance": st.fixedInstance,
 		"tmpl:agg-level-connect": st.aggConnect, "tmpl:class-connect": st.classConnect, "tmpl:shadowed-var": st.shadow,
 		"tmpl:explicit": st.explicit, "tmpl:unmatched-expr": st.unmatched, "tmpl:this": st.this, "tmpl:nested-iter": st.nested,
@@ -925,5 +929,6 @@ func shrinkTemplate(in *sx.Node) []string {
 	if in.At(0).Len() > 1 {
 		drop(in.At(0), in.At(0).Len()-1)
 	}
+	out = append(out, shrinkPropsAndMisc(in)...)
 	return out
 }
